@@ -312,17 +312,24 @@ class AsynchronousDeferredRunTest(_DeferredRunTest):
         asynchronous Deferreds.  As such, we take the responsibility for
         running the cleanups, rather than letting TestCase do it.
         """
-        last_exception = None
+        failing = False
         while self.case._cleanups:
             f, args, kwargs = self.case._cleanups.pop()
             d = defer.maybeDeferred(f, *args, **kwargs)
             try:
                 yield d
-            except Exception:
-                exc_info = sys.exc_info()
-                self.case._report_traceback(exc_info)
-                last_exception = exc_info[1]
-        return last_exception
+            except GeneratorExit:
+                # Not a cleanup's doing: this generator is being discarded
+                # (the run timed out or was interrupted while we waited).
+                raise
+            except BaseException:
+                # As RunTest does: every exception counts (not only the last
+                # one), exception handlers see it, MultipleExceptions is
+                # unpacked, and KeyboardInterrupt & co neither stop the
+                # remaining cleanups nor get lost.
+                self._got_user_exception(sys.exc_info())
+                failing = True
+        return failing
 
     def _make_spinner(self):
         """Make the `Spinner` to be used to run the tests."""
@@ -346,9 +353,8 @@ class AsynchronousDeferredRunTest(_DeferredRunTest):
             """Run the cleanups."""
             d = self._run_cleanups()
 
-            def clean_up_done(result):
-                if result is not None:
-                    self._exceptions.append(result)
+            def clean_up_done(failing):
+                if failing:
                     fails.append(None)
 
             return d.addCallback(clean_up_done)
